@@ -21,6 +21,7 @@ import itertools
 from .. import conc, concshards as cs, detsched as D
 from ..common import rng_for
 from .c04 import hang_exit
+from ..vias import COPYING
 
 PROPERTY = 'C06'
 LEVEL = 'fault_enumeration'
@@ -75,6 +76,15 @@ def scenarios(nmax, bmax, wmax):
                         # .items() through a catching prefetch
                         out.append(cs.make(entry, n, b, w, faults=fp, catch=catch,
                                            key=True))
+            # the same through a copy / a lazy apply / the profiling wrapper:
+            # which exceptions a prefetch filters is a parameter of the stage
+            if entry in CATCH_ENTRIES and fi % 4 == 1:
+                for pi, path in enumerate(COPYING):
+                    catch = ('true', 'user', 'tuple', 'exception')[(fi // 4 + pi) % 4]
+                    out.append(cs.make(entry, n, b, w, faults=fp, catch=catch, path=path))
+            elif entry in ('pf1', 'pft', 'parmap') and fi % 4 == 3:
+                out.append(cs.make(entry, n, b, w, faults=fp,
+                                   path=COPYING[(fi // 4) % len(COPYING)]))
         if entry in ('stp', 'lpm', 'pf1', 'parmap') and n == 2:
             for kind in KINDS:
                 out.append(cs.make(entry, n, b, w, faults={'iter': kind}))
@@ -117,6 +127,8 @@ def run_shard(spec, res):
         def on_run(sc, r):
             cs.note(res, sc, r)
             judge(sc, r, res, ld)
+            if sc.get('path'):
+                res.count('executions_through_copies')
             fired = any(ev[1] == 'raised' for ev in r['events']) or bool(r['raised_objs'])
             res.count('executions_with_fault_fired', int(fired))
             for o in r['raised_objs']:
